@@ -955,6 +955,25 @@ class Folder:
                 return _mask(r_) if isinstance(r_, list) else r_
             except TypeError as exc:
                 raise Unfoldable(str(exc))
+        if isinstance(node, ast.Call) and isinstance(node.func, ast.Call) and (call_name(node.func) or "") in ("itemgetter", "operator.itemgetter") and len(node.args) == 1 and not node.keywords and not node.func.keywords and node.func.args:
+            # operator.itemgetter(i, j, ...)(seq): the item for one index, a tuple of items for several
+            idx_ = []
+            for a_ in node.func.args:
+                if isinstance(a_, ast.Starred):
+                    many_ = self.fold(a_.value)
+                    if not isinstance(many_, list):
+                        raise Unfoldable("itemgetter indices")
+                    idx_.extend(many_)
+                else:
+                    idx_.append(self.fold(a_))
+            seq_ = self.fold(node.args[0])
+            if not isinstance(seq_, (list, dict)) or not idx_:
+                raise Unfoldable("itemgetter of a non-sequence")
+            try:
+                got_ = [seq_[i_] for i_ in idx_]
+            except (IndexError, KeyError, TypeError) as exc:
+                raise Unfoldable(str(exc))
+            return got_[0] if len(idx_) == 1 else PyTuple(got_)
         if isinstance(node, ast.Call) and not node.keywords and isinstance(node.func, (ast.Name, ast.Attribute)):
             try:
                 target = self.fold(node.func) if (isinstance(node.func, ast.Name) and node.func.id in self.names) or (isinstance(node.func, ast.Attribute) and (attr_chain(node.func) in self.attrs or node.func.attr == "__class__")) else None
